@@ -7,6 +7,8 @@ import (
 	"context"
 	"encoding/json"
 	"fmt"
+	"github.com/theparanoids/ysshra/internal/zzverif/uagent"
+	"github.com/theparanoids/ysshra/zzverifrt/vnet"
 	"strings"
 	"time"
 
@@ -461,7 +463,24 @@ func c01Rotation(c *ev.Ctx, k c01Case) {
 
 func checkC01(c *ev.Ctx) {
 	defer cleanupScratch()
-	c.Rule("real gensign.Run + regular.Handler (built by NewHandler from a JSON config) over a scripted forwarded agent and a recording CA: single runs = full product login{alice,bob,ünï} x policy{NONS,NSOK} x hard-key x params{set,nil,without client attributes} x client claim{self,mallory} x key directory{none,.pub,bare,both,unparsable,other user,directory,another user's key; near-miss file names of other users (other case, prefix, suffix, stray dot/space) for 5 login names} x agent{honest with key, without, signs with another key, signs other data, garbage, empty, failure, close}; handler lists = every list of length 0..3 over {accepting stub, rejecting stub (typed error; in the first two positions also plain, wrapped and by-value errors), stub whose Authenticate crashes, real handler} x real handler ok/not, plus 9 lists whose first accepting handler then fails to generate (error / no keys) in front of other handlers, plus 7 lists with one or two handlers each of which answers only after 2.6 s of a 4 s request deadline (real time); run sequences of length 2 (thorough 3) over {honest, replay, other data, failure}, and key-rotation sequences (registered key file replaced in place between runs; old key must be refused by the long-lived and by a fresh handler, new key accepted). Oracle: independent proof-of-possession predicate; challenge = bytes drawn from the csprng seam in this run. non-trivial = run with a valid proof of possession or a handler list; distinct by case")
+	c.Rule("real gensign.Run + regular.Handler (built by NewHandler from a JSON config) over a scripted forwarded agent and a recording CA, in a process whose own SSH_AUTH_SOCK leads to an honest agent holding every registered key (it must never be asked): single runs = full product login{alice,bob,ünï} x policy{NONS,NSOK} x hard-key x params{set,nil,without client attributes} x client claim{self,mallory} x key directory{none,.pub,bare,both,unparsable,other user,directory,another user's key; near-miss file names of other users (other case, prefix, suffix, stray dot/space) for 5 login names} x agent{honest with key, without, signs with another key, signs other data, garbage, empty, failure, close}; handler lists = every list of length 0..3 over {accepting stub, rejecting stub (typed error; in the first two positions also plain, wrapped and by-value errors), stub whose Authenticate crashes, real handler} x real handler ok/not, plus 9 lists whose first accepting handler then fails to generate (error / no keys) in front of other handlers, plus 7 lists with one or two handlers each of which answers only after 2.6 s of a 4 s request deadline (real time); run sequences of length 2 (thorough 3) over {honest, replay, other data, failure}, and key-rotation sequences (registered key file replaced in place between runs; old key must be refused by the long-lived and by a fresh handler, new key accepted). Oracle: independent proof-of-possession predicate; challenge = bytes drawn from the csprng seam in this run. non-trivial = run with a valid proof of possession or a handler list; distinct by case")
+	// the PROCESS has an agent of its own behind SSH_AUTH_SOCK that holds every registered key and signs honestly (the RA's
+	// own environment): proof of possession is what the FORWARDED agent of the request shows, nothing else; whatever lands
+	// in this ambient agent was put there by mistake
+	ambient := uagent.New()
+	for _, rk := range []any{regKeyDefault(), fix.EC(384), fix.RSA(2048)} {
+		ambient.Ring.Add(agentAdded(rk, "ambient copy of a registered key"))
+	}
+	ambient.Listen("/verif/ambient-agent-of-the-ra-process")
+	defer vnet.Unregister("/verif/ambient-agent-of-the-ra-process")
+	os.Setenv("SSH_AUTH_SOCK", "/verif/ambient-agent-of-the-ra-process")
+	defer os.Unsetenv("SSH_AUTH_SOCK")
+	ambientAdds := len(ambient.Ring.AddLog)
+	defer func() {
+		if n := len(ambient.Ring.AddLog) - ambientAdds; n > 0 || len(ambient.Log) > 0 {
+			c.Violation("C01:ambient-agent-used", fmt.Sprintf("the agent behind the RA process's own SSH_AUTH_SOCK received %d requests (%d identities added) during the check: a request is authenticated against ITS forwarded agent only", len(ambient.Log), n), map[string]any{"ambient": true})
+		}
+	}()
 	c.Assume("statistical quality of the OS CSPRNG is trusted; 'fresh' is decided as 'the 64 bytes drawn from crypto/rand during this Authenticate call'", "key files are looked up as '<name>.pub' then '<name>' (documented order)")
 	if c.ReplayCase != nil {
 		var k c01Case
